@@ -58,6 +58,7 @@ type vcliConn struct {
 	c2sTotal  int64
 	s2cTotal  int64
 	readMax   int // >0: a client Read returns at most this many bytes (fragmentation)
+	cc        atomic.Pointer[ClientConn]
 }
 
 func vcliNewConn() *vcliConn {
@@ -165,6 +166,7 @@ func (c *vcliConn) s2cPending() int {
 type vcliDelayer struct {
 	seed     uint64
 	pct      atomic.Int64 // probability (0..100) that a hit sleeps
+	only     string       // when non-empty, only this failpoint name sleeps
 	maxMs    int64
 	ctr      atomic.Uint64
 	sleepers atomic.Int64
@@ -185,7 +187,7 @@ func vcliMix(x uint64) uint64 {
 func (d *vcliDelayer) Delay(name string) {
 	d.hits.Add(1)
 	p := d.pct.Load()
-	if p <= 0 {
+	if p <= 0 || (d.only != "" && d.only != name) {
 		return
 	}
 	h := vcliMix(d.seed ^ d.ctr.Add(1)*0x9e3779b97f4a7c15)
@@ -227,13 +229,13 @@ type vcliStream struct {
 	winBeforeAck   int64
 	frameBeforeAck int64
 	dataSinceAck   int
-	ackSeen       bool
-	openedAfter   int // number of SETTINGS ACKs seen on the connection when the stream was opened
-	openSeq       int
-	headersAtC2S  int // index of the opening HEADERS in the client's frame sequence
-	afterGoAway   bool
-	limitAtOpen   int64
-	openCntAtOpen int
+	ackSeen        bool
+	openedAfter    int // number of SETTINGS ACKs seen on the connection when the stream was opened
+	openSeq        int
+	headersAtC2S   int // index of the opening HEADERS in the client's frame sequence
+	afterGoAway    bool
+	limitAtOpen    int64
+	openCntAtOpen  int
 }
 
 func (st *vcliStream) cliCanSend() bool { return !st.cliEnded && !st.cliReset }
@@ -253,6 +255,11 @@ type vcliShadow struct {
 	limitBeforeAck int64
 	opensSinceAck  int
 	ackSeen        bool
+
+	// Event positions (count of frames seen in both directions) of the last SETTINGS ACK that
+	// raised the client's concurrency limit and of the last stream close in the server's view.
+	lastRaiseAckSeq int
+	lastCloseSeq    int
 
 	goAwaySent     bool
 	goAwayLast     uint32
@@ -670,6 +677,11 @@ func (sc *vcliSrvConn) onSettingsAck() {
 	sh.pending = sh.pending[1:]
 	sh.acks++
 	sc.S.R.Event("settings_acked", 1)
+	if sh.acks == 1 {
+		// Until the first server SETTINGS the client works with a provisional limit and
+		// replaces it afterwards, so the first ACK may amount to a raise on the client side.
+		sh.lastRaiseAckSeq = sc.nC2S + sc.nS2C
+	}
 	for _, s := range ss {
 		switch s.ID {
 		case h2ref.SettingInitialWindowSize:
@@ -689,6 +701,9 @@ func (sc *vcliSrvConn) onSettingsAck() {
 			if int64(s.Val) < int64(sh.openCount) {
 				sc.S.R.Event("limit_lowered_below_open_count", 1)
 			}
+			if int64(s.Val) > sh.maxStreams {
+				sh.lastRaiseAckSeq = sc.nC2S + sc.nS2C
+			}
 			sh.maxStreams = int64(s.Val)
 		}
 	}
@@ -701,6 +716,7 @@ func (sc *vcliSrvConn) maybeClose(st *vcliStream) {
 	if (st.cliEnded && st.srvEnded) || st.cliReset || st.srvReset {
 		st.closed = true
 		sc.Sh.openCount--
+		sc.Sh.lastCloseSeq = sc.nC2S + sc.nS2C
 	}
 }
 
@@ -902,6 +918,24 @@ func (s *vcliSession) newSrvConn() *vcliSrvConn {
 	s.dials.Add(1)
 	s.R.Event("connections", 1)
 	return sc
+}
+
+// HookNewClientConn makes connections dialed by the Transport's pool known to the harness
+// (white-box: Transport.transportTestHooks.newclientconn), so ClientConn() works for them.
+func (s *vcliSession) HookNewClientConn() {
+	s.Tr.transportTestHooks = &transportTestHooks{newclientconn: func(cc *ClientConn) {
+		if vc, ok := cc.tconn.(*vcliConn); ok {
+			vc.cc.Store(cc)
+		}
+	}}
+}
+
+// ClientConn returns the implementation's connection object for this pipe, if known.
+func (sc *vcliSrvConn) ClientConn() *ClientConn {
+	if sc.CC != nil {
+		return sc.CC
+	}
+	return sc.NC.cc.Load()
 }
 
 // NewDirect creates a connection with Transport.NewClientConn (no pool involved).
@@ -1111,3 +1145,6 @@ func (s *vcliSession) Teardown() {
 		s.R.Event("teardown_unfinished_requests", 1)
 	}
 }
+
+// vcliSleepVirtual advances the bubble's clock (e.g. past the pool's retry back-off).
+func vcliSleepVirtual(ms int) { time.Sleep(time.Duration(ms) * time.Millisecond) }
